@@ -15,6 +15,9 @@ def run(pid, tier):
         if pid == "C05":
             import ingest_check
             return ingest_check.check(pid, tier)
+        if pid == "C19":
+            import conf_check
+            return conf_check.check(pid, tier)
         if pid == "C17":
             import radv_check
             return radv_check.check(pid, tier)
